@@ -219,7 +219,7 @@ def _sh_m2(tier):
 
 
 def _sh_m3(tier):
-    return product_pins(finals=[2, 3], i0=[0, 1], c0=[2, 3, 4], f1=[0, 1], i1=[0, 1])
+    return product_pins(finals=[2, 3], i0=[0, 1], c0=[3], f1=[0, 1], i1=[0, 1])
 
 
 FUNCS = ["CFG.to_pda", "PDAObjectCreator (cfg)", "PDA.to_cfg", "PDA._generate_all_rules",
